@@ -116,6 +116,23 @@ theorem applyAt_aboutGround (X : Pose K) (sG F : V3 K) :
   apply SpF.ext' <;> simp only [applyAt, SpF.aboutGround]
   apply V3.ext' <;> simp [cross] <;> ring
 
+/-! small matrix algebra -/
+theorem dot_mulVec (R : M33 K) (a b : V3 K) : dot (R.mulVec a) b = dot a (R.tmulVec b) := by
+  simp only [M33.mulVec, M33.tmulVec, dot, smul, V3.add_x, V3.add_y, V3.add_z]; ring
+theorem dot_tmulVec (R : M33 K) (a b : V3 K) : dot a (R.tmulVec b) = dot (R.mulVec a) b := (dot_mulVec R a b).symm
+theorem dot_comm' (a b : V3 K) : dot a b = dot b a := by simp only [dot]; ring
+theorem dot_cross_swap (p f w : V3 K) : dot (cross p f) w = dot f (cross w p) := by
+  simp only [dot, cross]; ring
+theorem tmulVec_mul (A B : M33 K) (v : V3 K) : (A.mul B).tmulVec v = B.tmulVec (A.tmulVec v) := by
+  apply V3.ext' <;>
+    simp only [M33.mul, M33.tmulVec, M33.col0, M33.col1, M33.col2, dot, smul, V3.add_x, V3.add_y, V3.add_z] <;> ring
+theorem transpose_tmulVec (A : M33 K) (v : V3 K) : A.transpose.tmulVec v = A.mulVec v := by
+  apply V3.ext' <;>
+    simp only [M33.transpose, M33.tmulVec, M33.mulVec, M33.col0, M33.col1, M33.col2, dot, smul, V3.add_x, V3.add_y, V3.add_z] <;> ring
+theorem mul_mulVec (A B : M33 K) (v : V3 K) : (A.mul B).mulVec v = A.mulVec (B.mulVec v) := by
+  apply V3.ext' <;>
+    simp only [M33.mul, M33.mulVec, M33.col0, M33.col1, M33.col2, dot] <;> ring
+
 section ordered
 variable [LinearOrder K] [IsStrictOrderedRing K]
 
